@@ -1219,3 +1219,153 @@ Proof.
   cbn [rbind run_from step] in H. unfold thread_free in H. destruct (negb (ready s1)); [discriminate|].
   cbn [rbind] in H. inversion H. reflexivity.
 Qed.
+
+(* ------------------------------------------------------------------ accepted programs complete when the clock list is long enough *)
+
+Lemma big_afe_enough fx cap t0 t1 s :
+  (2 <= length (clk s))%nat ->
+  exists s', big_afe fx cap t0 t1 s = ROk s' /\ (length (clk s) <= length (clk s') + 2)%nat.
+Proof.
+  intros L. unfold big_afe.
+  destruct fx.
+  - destruct (evlen s + 24 >=? cap).
+    + destruct (clk s) as [|a r] eqn:EC; [cbn [length] in L; lia|].
+      eexists. split; [reflexivity|]. autorewrite with st. cbn [length]. lia.
+    + eexists. split; [reflexivity|]. autorewrite with st. lia.
+  - destruct (evlen s + 12 >=? cap).
+    + destruct (clk s) as [|a [|b r]] eqn:EC; try (cbn [length] in L; lia).
+      eexists. split; [reflexivity|]. autorewrite with st. cbn [length]. lia.
+    + destruct (evlen s + 24 >=? cap).
+      * destruct (clk s) as [|a [|b r]] eqn:EC; try (cbn [length] in L; lia).
+        eexists. split; [reflexivity|]. autorewrite with st. cbn [length]. lia.
+      * eexists. split; [reflexivity|]. autorewrite with st. lia.
+Qed.
+
+Lemma big_awf_enough fx cap chunks total s :
+  (4 <= length (clk s))%nat ->
+  exists s', big_awf fx cap chunks total s = ROk s' /\ (length (clk s) <= length (clk s') + 4)%nat.
+Proof.
+  intros L. unfold big_awf. destruct (evlen s + total >=? cap).
+  - destruct (clk s) as [|a [|b r]] eqn:EC; try (cbn [length] in L; lia).
+    destruct (big_afe_enough fx cap a b (appends (set_clk (flush_evbuf s) r) chunks)) as (s' & E & L').
+    { autorewrite with st. cbn [length] in L. lia. }
+    exists s'. split; [exact E|]. autorewrite with st in L'. cbn [length]. lia.
+  - eexists. split; [reflexivity|]. autorewrite with st. lia.
+Qed.
+
+Lemma add_normal_enough fx cap s dl bl m c v chunks ev t :
+  64 <= cap -> Rel cap s dl bl -> build m c v chunks = Ret ev -> chunks_okb chunks = true ->
+  (4 <= length (clk s))%nat ->
+  exists s', ovni_ev_add fx cap FUEL (ovni_ev_set_clock ev t) s = ROk s' /\ (length (clk s) <= length (clk s') + 4)%nat.
+Proof.
+  intros Hcap RL BE CO L.
+  destruct (image_normal m c v t chunks ev BE CO) as [SZ IM]. cbn zeta in SZ, IM.
+  set (e := mkU false m c v t (concat chunks)) in *.
+  assert (Hsz : 12 <= esize e <= 28).
+  { unfold esize, e, HEADER_SIZE. cbn [u_jumbo u_data]. unfold chunks_okb in CO.
+    pose proof (zlength_nonneg (concat chunks)). lia. }
+  change FUEL with (S (S (S 1))).
+  rewrite (ev_add_eq fx cap Hcap 1%nat _ s (esize e)); [| apply RL | symmetry; exact SZ | lia].
+  apply big_awf_enough. exact L.
+Qed.
+
+Lemma mark_enough fx cap s dl bl v ty va log :
+  64 <= cap -> Rel cap s dl bl -> va <> 0 -> (5 <= length (clk s))%nat ->
+  exists s' log', mark fx cap v ty va (s, log) = ROk (s', log') /\ (length (clk s) <= length (clk s') + 5)%nat.
+Proof.
+  intros Hcap RL NZ L. unfold mark. destruct (va =? 0) eqn:E0; [lia|].
+  destruct (build_ok c_O c_M v (mark_payload ty va) (mark_chunks_ok ty va)) as (ev & BE & _).
+  unfold clock_now. destruct (clk s) as [|t r] eqn:EC; [cbn [length] in L; lia|]. cbn [rbind]. rewrite BE.
+  destruct (add_normal_enough fx cap (set_clk s r) dl bl _ _ _ _ ev t Hcap (Rel_set_clk cap s dl bl r RL) BE (mark_chunks_ok ty va))
+    as (s' & E & L'). { rewrite clk_set_clk. cbn [length] in L. lia. }
+  rewrite E. cbn [rbind]. eexists _, _. split; [reflexivity|]. rewrite clk_set_clk in L'. cbn [length]. lia.
+Qed.
+
+Lemma step_enough fx cap s dl bl o log :
+  64 <= cap -> Rel cap s dl bl -> op_wfb o = true -> api_okb cap o = true -> (5 <= length (clk s))%nat ->
+  exists s' log', step fx cap o (s, log) = ROk (s', log') /\ (length (clk s) <= length (clk s') + 5)%nat.
+Proof.
+  intros Hcap RL WF AO L. destruct o as [m c v chunks | m c v data | | ty va | ty va | ty va | ]; cbn [step api_okb] in *.
+  - destruct (build_ok m c v chunks AO) as (ev & BE & _). rewrite BE.
+    unfold clock_now. destruct (clk s) as [|t r] eqn:EC; [cbn [length] in L; lia|]. cbn [rbind].
+    destruct (add_normal_enough fx cap (set_clk s r) dl bl _ _ _ _ ev t Hcap (Rel_set_clk cap s dl bl r RL) BE AO)
+      as (s' & E & L'). { rewrite clk_set_clk. cbn [length] in L. lia. }
+    rewrite E. cbn [rbind]. eexists _, _. split; [reflexivity|]. rewrite clk_set_clk in L'. cbn [length]. lia.
+  - cbn [op_wfb] in WF. assert (Hn : zlength data < 2 ^ 32) by lia. pose proof (zlength_nonneg data) as NN.
+    unfold clock_now. destruct (clk s) as [|t r] eqn:EC; [cbn [length] in L; lia|]. cbn [rbind].
+    destruct (image_jumbo m c v t (zlength data) ltac:(lia)) as [PS (ev1 & PA & SZ & IM)]. cbn zeta in PS, PA.
+    unfold ovni_ev_add_jumbo. destruct RL as (R & RL'). cbn [ready set_clk]. rewrite R. cbn [negb].
+    rewrite PS. cbn [Z.eqb negb]. rewrite PA, SZ.
+    destruct (16 + zlength data >=? cap) eqn:E; [lia|].
+    change FUEL with (S (S 2)).
+    rewrite (awf_eq fx cap Hcap 2%nat); [| exact R | cbn [map snd fold_right]; lia | lia].
+    match goal with |- context [big_awf fx cap ?ch ?tot ?st] =>
+      destruct (big_awf_enough fx cap ch tot st) as (s' & E' & L') end.
+    { rewrite clk_set_clk. cbn [length] in L. lia. }
+    rewrite E'. cbn [rbind]. eexists _, _. split; [reflexivity|]. rewrite clk_set_clk in L'. cbn [length]. lia.
+  - destruct RL as (R & _). unfold ovni_flush. rewrite R. cbn [negb].
+    unfold clock_now. destruct (clk s) as [|t0 [|t1 r]] eqn:EC; try (cbn [length] in L; lia).
+    cbn [rbind clk set_clk flush_evbuf]. change FUEL with (S 3).
+    rewrite (markers_fit fx cap 3%nat); [| exact R | cbn; lia | cbn; lia].
+    cbn [rbind]. eexists _, _. split; [reflexivity|]. autorewrite with st. cbn [clk length]. lia.
+  - apply (mark_enough fx cap s dl bl _ ty va log Hcap RL); [lia | exact L].
+  - apply (mark_enough fx cap s dl bl _ ty va log Hcap RL); [lia | exact L].
+  - apply (mark_enough fx cap s dl bl _ ty va log Hcap RL); [lia | exact L].
+  - destruct RL as (R & _). unfold thread_free. rewrite R. cbn [negb rbind].
+    eexists _, _. split; [reflexivity|]. cbn [clk]. lia.
+Qed.
+
+(* every program of accepted calls runs to completion, given 5 clock values per call *)
+Theorem run_total fx cap ops clock :
+  64 <= cap -> forallb op_wfb ops = true -> existsb is_free ops = false -> forallb (api_okb cap) ops = true ->
+  (5 * length ops <= length clock)%nat ->
+  exists s log, run fx cap ops clock = ROk (s, log).
+Proof.
+  intros Hcap WF NF AO L. unfold run.
+  assert (G : forall ops s log dl bl, Rel cap s dl bl -> forallb op_wfb ops = true -> existsb is_free ops = false ->
+              forallb (api_okb cap) ops = true -> (5 * length ops <= length (clk s))%nat ->
+              exists s' log', run_from fx cap ops (s, log) = ROk (s', log')).
+  { clear ops WF NF AO L. induction ops as [|o ops IH]; intros s log dl bl RL WF NF AO L.
+    - eexists _, _. reflexivity.
+    - cbn [forallb existsb length] in *. apply andb_prop in WF. destruct WF as [WF1 WF2].
+      apply andb_prop in AO. destruct AO as [AO1 AO2]. apply orb_false_elim in NF. destruct NF as [NF1 NF2].
+      destruct (step_enough fx cap s dl bl o log Hcap RL WF1 AO1 ltac:(lia)) as (s1 & log1 & E & L1).
+      cbn [run_from]. rewrite E. cbn [rbind].
+      assert (NFo : o <> Free) by (intros ->; discriminate).
+      destruct (step_astep fx cap s dl bl o log s1 log1 Hcap RL WF1 NFo E) as (_ & dl1 & bl1 & RL1 & _).
+      apply (IH s1 log1 dl1 bl1 RL1 WF2 NF2 AO2). lia. }
+  apply (G ops _ [] [] [] (Rel_init cap clock Hcap) WF NF AO). rewrite clk_init. exact L.
+Qed.
+
+Theorem run_total_free fx cap ops clock :
+  64 <= cap -> forallb op_wfb ops = true -> existsb is_free ops = false -> forallb (api_okb cap) ops = true ->
+  (5 * length ops + 5 <= length clock)%nat ->
+  exists s log, run fx cap (ops ++ [Flush; Free]) clock = ROk (s, log).
+Proof.
+  intros Hcap WF NF AO L.
+  destruct (run_total fx cap (ops ++ [Flush]) clock Hcap) as (s1 & log1 & E).
+  - rewrite forallb_app, WF. reflexivity.
+  - rewrite existsb_app, NF. reflexivity.
+  - rewrite forallb_app, AO. reflexivity.
+  - rewrite app_length. cbn [length]. lia.
+  - unfold run in *. replace (ops ++ [Flush; Free]) with ((ops ++ [Flush]) ++ [Free]) by (rewrite <- app_assoc; reflexivity).
+    rewrite run_from_app, E. cbn [rbind run_from step].
+    assert (R : ready s1 = true).
+    { destruct (run_from_asteps fx cap Hcap (ops ++ [Flush]) (thread_init clock) [] [] [] s1 log1 (Rel_init cap clock Hcap))
+        as (_ & dl & bl & (R & _) & _); try assumption.
+      - rewrite forallb_app, WF. reflexivity.
+      - rewrite existsb_app, NF. reflexivity. }
+    unfold thread_free. rewrite R. cbn [negb rbind]. eexists _, _. reflexivity.
+Qed.
+
+(* what the decider valid_stream means for a file (a list of bytes) *)
+Theorem valid_stream_meaning bs :
+  Forall byte bs -> valid_stream bs = true ->
+  exists es, bs = STREAM_HEADER ++ flat_map encode es /\ Forall wf_uev es /\
+             sortedb (map u_clock es) = true /\ flush_okb es = true.
+Proof.
+  intros HB V. unfold valid_stream in V. destruct (parse_stream bs) as [es| |] eqn:P; try discriminate.
+  destruct (parse_stream_sound bs es HB P) as [E W]. exists es.
+  unfold valid_events in V. apply andb_prop in V. destruct V as [V V3]. apply andb_prop in V. destruct V as [_ V2].
+  repeat split; assumption.
+Qed.
